@@ -444,7 +444,7 @@ def viol(ctx, kind, what, replay, found=True, cap=3):
 def stream_tie(ctx, objdir, harness):
     rng = ctx.rng
     todo = []
-    ncase = ctx.n(10, 80)
+    ncase = ctx.n(10, 60)
     for i in range(ncase):
         small = i % 3 != 2
         case = gen_case(rng, rng.randrange(3, 9) if small else rng.randrange(6, 14), small=small)
@@ -570,7 +570,7 @@ def text_lines(content, fname):
 def e2e(ctx, objdir):
     uft = os.path.join(objdir, "uftrace")
     rng = ctx.rng
-    ndirs = ctx.n(1, 3)
+    ndirs = ctx.n(1, 2)
     nvar = ctx.n(10, len(VARIANTS))
     variants = [c for c, _ in VARIANTS[:nvar]]
     allcmds = CMDS + variants
